@@ -37,6 +37,16 @@ CLAIMED = {
         "translator. Two recorded findings (known_findings.json: C17-K1 unknown nested keys accepted, C17-K2 cpp generator dependency).",
    technique="Coq proof over Gallina model of the merge/option parser/target lattice + vm_compute correspondence against the real configuration code",
    design="7/C17"),
+ 'C19': dict(
+   text="Coq theorems about a Gallina model of cli.main()'s outcome-to-exit-status mapping for ALL outcomes and error lists "
+        "(status 0 iff success; otherwise the code of the FIRST reported error; distinct positive codes so the status identifies "
+        "the class), finite checks over the exception/return-code table regenerated from /repo on every run, and the operation "
+        "sequence of a chained generate invocation (equal to the documented API chain; --clean reaches every target; the first "
+        "failing stage decides). Tied to /repo by a subprocess matrix of `python -m pydjinni` invocations compared (vm_compute) "
+        "with the model applied to the API-level outcome, plus file-tree equality with the API chain and a no-traceback oracle.",
+   note="Trusted: Coq kernel+vm_compute; click; the table translator; the in-process API chain used to observe the outcome.",
+   technique="Coq proof over Gallina model of exit-status mapping and op sequence + vm_compute correspondence against CLI subprocess runs",
+   design="7/C19"),
 }
 PENDING_REASON = "check not built yet in this session (work in progress; see DESIGN.md section 10 build order)"
 HOOK_COMMITS = []
